@@ -96,6 +96,18 @@ def forcePair (G soft2 : K) (sq : K → K) (pi pj : GP K) : V3 K × V3 K :=
 def accBasicAll (G soft2 : K) (sq : K → K) (ps : List (GP K)) : List (V3 K) :=
   loopLF V3.add V3.zero (forcePair G soft2 sq) [] [] ps
 
+/-- `gravity_ignore_terms` (set to 1 by WHFast in Jacobi coordinates, 2 in the heliocentric
+    ones): `starti = (ign==0)?1:2`, `startj = (ign==2)?1:0` of gravity.c:145-146 / 1006-1007.
+    1 skips the pair (1,0); 2 skips every pair with particle 0. -/
+def loopIgn {α : Type} (ign : Nat) (f : α → α → V3 K × V3 K) (ps : List α) : List (V3 K) :=
+  match ign, ps with
+  | 1, p0 :: p1 :: rest => loopLF V3.add V3.zero f [p0, p1] [V3.zero, V3.zero] rest
+  | 2, _ :: p1 :: rest => V3.zero :: loopLF V3.add V3.zero f [p1] [V3.zero] rest
+  | _, ps => loopLF V3.add V3.zero f [] [] ps
+
+def accBasicIgn (ign : Nat) (G soft2 : K) (sq : K → K) (ps : List (GP K)) : List (V3 K) :=
+  loopIgn ign (forcePair G soft2 sq) ps
+
 /-- accelerations with `N_active < N`: `act` active particles, `tst` test particles of type
     `tptype` (gravity.c:161-222); result in index order -/
 def accBasicSplit (G soft2 : K) (sq : K → K) (tptype : Bool) (act tst : List (GP K)) : List (V3 K) :=
@@ -152,6 +164,10 @@ def var1Pair (G : K) (sq : K → K) (pi pj : RV1 K) : V3 K × V3 K :=
 /-- accelerations of a full first-order set (`vc.testparticle < 0`), all particles active -/
 def accVar1 (G : K) (sq : K → K) (ps : List (RV1 K)) : List (V3 K) :=
   loopLF V3.add V3.zero (var1Pair G sq) [] [] ps
+
+/-- first-order set under `gravity_ignore_terms` (the second-order loops do not implement it) -/
+def accVar1Ign (ign : Nat) (G : K) (sq : K → K) (ps : List (RV1 K)) : List (V3 K) :=
+  loopIgn ign (var1Pair G sq) ps
 
 /-- first-order set with `N_active < N` (gravity.c:1036-1115) -/
 def accVar1Split (G : K) (sq : K → K) (tptype : Bool) (act tst : List (RV1 K)) : List (V3 K) :=
@@ -290,6 +306,28 @@ def tpVar2Term (G : K) (sq : K → K) (x y z : K) (dd k1 k2 : V3 K) (pj : GP K) 
 
 def tpVar2 (G : K) (sq : K → K) (x y z : K) (dd k1 k2 : V3 K) (others : List (GP K)) : V3 K :=
   others.foldl (fun a pj => V3.add a (tpVar2Term G sq x y z dd k1 k2 pj)) V3.zero
+
+/-! ## WHFast, Jacobi coordinates: the Jacobi term of the interaction step and its variation
+    (integrator_whfast.c:376-395) -/
+
+/-- velocity increment of Jacobi particle `i>1` (lines 376-383) -/
+def whJacKick (G eta dt soft : K) (sq : K → K) (x y z : K) : V3 K :=
+  let rj2i := Scalar.one / (x*x + y*y + z*z + soft*soft)
+  let rji := sq rj2i
+  let rj3iM := rji*rj2i*G*eta
+  let prefac1 := dt*rj3iM
+  ⟨prefac1*x, prefac1*y, prefac1*z⟩
+
+/-- what is added to the velocity of the variational Jacobi particle (lines 385-394) -/
+def whJacKickVar (G eta dt soft : K) (sq : K → K) (x y z dx dy dz : K) : V3 K :=
+  let rj2i := Scalar.one / (x*x + y*y + z*z + soft*soft)
+  let rji := sq rj2i
+  let rj3iM := rji*rj2i*G*eta
+  let prefac1 := dt*rj3iM
+  let rj5M := rj3iM*rj2i
+  let rdr := dx*x + dy*y + dz*z
+  let prefac2 := (-dt)*three*rdr*rj5M
+  ⟨prefac1*dx + prefac2*x, prefac1*dy + prefac2*y, prefac1*dz + prefac2*z⟩
 
 /-! ## move_to_com, one Cartesian component at a time (tools.c:162-312)
 
